@@ -61,6 +61,9 @@ func (e *engine) randSched(r *vh.Rng, n int) Sched {
 	case 3, 4:
 		s.Chunk, s.Seed = "rand", r.U64()%1000
 	}
+	if r.Chance(5) {
+		s.Chunk = "z" + s.Chunk
+	}
 	if r.Chance(8) {
 		s.FaultAt = r.Intn(n + 1)
 		s.Fault = vh.Pick(r, []string{"inj", "ueof"})
@@ -230,9 +233,9 @@ func (e *engine) runTotality() {
 
 // runRisky: deep nesting and huge tokens, fewer children at a time (each may use gigabytes).
 func (e *engine) runRisky() {
-	n := e.nw / 2
-	if n < 1 {
-		n = 1
+	n := 2 // each may use up to the 4 GiB cap
+	if e.nw < n {
+		n = e.nw
 	}
 	risky := e.risky
 	e.risky = nil
